@@ -496,13 +496,18 @@ func c09Loop(c *Ctx) {
 			}
 			x := cp.Res[0]
 			attempts = append(attempts, x)
-			if ev.EventFn(g) == nil || len(g.Args) != 2 || g.Args[0] != x {
+			ga := flatArgs(g.Args)
+			if ev.EventFn(g) == nil || len(ga) != 2 || (ga[0] != x && ga[1] != x) {
 				fail(p, g, "the attempt goroutine must receive its own execution copy")
 				bad = true
 				break
 			}
-			if idx, isC := g.Args[1].IsConstInt(); !isC || idx != int64(k) {
-				fail(p, g, fmt.Sprintf("attempt #%d is started with index %s", k, g.Args[1]))
+			idxArg := ga[1]
+			if ga[1] == x {
+				idxArg = ga[0]
+			}
+			if idx, isC := idxArg.IsConstInt(); !isC || idx != int64(k) {
+				fail(p, g, fmt.Sprintf("attempt #%d is started with index %s", k, idxArg))
 				bad = true
 				break
 			}
@@ -687,15 +692,42 @@ func c09Attempt(c *Ctx, ev *Evaluator, g *Event, innerFn, maxHedges, resultChan 
 	c.Rule("attempt")
 	ts := ev.TS
 	afn := ev.EventFn(g)
-	if afn == nil || len(afn.Params) < 2 {
+	// the attempt's own execution and index: its last two parameters, or the two fields of a by-value bundle
+	var hx, idx *T
+	var goArgs []*T
+	if afn != nil && len(afn.Params) >= 2 {
+		np := len(afn.Params)
+		hx = ts.intern(&T{Op: "param", Aux: "hedgeExec", Typ: afn.Params[np-2].Type()})
+		idx = ts.intern(&T{Op: "param", Aux: "execIdx", Typ: afn.Params[np-1].Type()})
+		goArgs = []*T{hx, idx}
+	} else if afn != nil && len(afn.Params) == 1 {
+		if st, isS := afn.Params[0].Type().Underlying().(*types.Struct); isS {
+			comps := make([]*T, st.NumFields())
+			for i := 0; i < st.NumFields(); i++ {
+				ft := st.Field(i).Type()
+				switch {
+				case types.TypeString(ft, nil) == "int" && idx == nil:
+					idx = ts.intern(&T{Op: "param", Aux: "execIdx", Typ: ft})
+					comps[i] = idx
+				case namedOfPtr(ft) != nil && strings.HasPrefix(namedOfPtr(ft).Obj().Name(), "Execution") && hx == nil:
+					hx = ts.intern(&T{Op: "param", Aux: "hedgeExec", Typ: ft})
+					comps[i] = hx
+				default:
+					comps[i] = ts.zeroOf(ft)
+				}
+			}
+			if hx != nil && idx != nil {
+				pt := afn.Params[0].Type()
+				goArgs = []*T{ts.intern(&T{Op: "struct", Aux: types.TypeString(pt, func(*types.Package) string { return "" }), Args: comps, Typ: pt})}
+			}
+		}
+	}
+	if goArgs == nil {
 		c.Undecided("hedgepolicy.(*executor).Apply$1$1", "", "attempt goroutine not resolvable", "")
 		return
 	}
 	name, pos := "hedgepolicy.(*executor).Apply$1$1", c.P.FuncPos(afn) // the attempt goroutine, closure or method
-	np := len(afn.Params)
-	hx := ts.intern(&T{Op: "param", Aux: "hedgeExec", Typ: afn.Params[np-2].Type()})
-	idx := ts.intern(&T{Op: "param", Aux: "execIdx", Typ: afn.Params[np-1].Type()})
-	qs := ev.RunEvent(g.Snap, g, []*T{hx, idx})
+	qs := ev.RunEvent(g.Snap, g, goArgs)
 	fresh := func(t *T) bool {
 		for i := 0; t != nil && t.Op == "faddr" && i < 4; i++ {
 			t = t.Args[0]
